@@ -43,7 +43,7 @@
 //@|    requires cursor.wf(), old(self).wf(),
 //@|    ensures final(self).request == old(self).request,
 //@|        r is Ok <==> cursor.rest().len() == 1 + (old(self).request.inner.count as int + 7) / 8,
-//@|        r is Err ==> final(self).promise.outcome() == old(self).promise.outcome() && !(r->Err_0 is Exception),
+//@|        r is Err ==> final(self).promise.outcome() == old(self).promise.outcome() && (r->Err_0 is BadResponse || r->Err_0 is BadRequest),
 //@|        r is Ok ==> final(self).promise.outcome() == (if old(self).promise.outcome() is None {
 //@|                Some(Ok::<BitsValue, RequestError>(BitsValue { range: old(self).request.inner,
 //@|                    values: Seq::new(old(self).request.inner.count as nat, |k: int| crate::types::spec_bit(cursor.rest().subrange(1, cursor.rest().len() as int), k)) }))
@@ -53,7 +53,7 @@
 //@|    ensures final(cursor).wf(),
 //@|        r is Ok <==> old(cursor).rest().len() == 1 + (range.count as int + 7) / 8,
 //@|        r is Ok ==> r->Ok_0.range == range && r->Ok_0.pos == 0 && r->Ok_0.bytes@ == old(cursor).rest().subrange(1, old(cursor).rest().len() as int) && (range.wf() ==> r->Ok_0.wf()),
-//@|        r is Err ==> !(r->Err_0 is Exception),
+//@|        r is Err ==> (r->Err_0 is BadResponse || r->Err_0 is BadRequest),
             }
         }
         pub mod read_registers {
@@ -101,7 +101,7 @@
 //@|    requires cursor.wf(), old(self).wf(),
 //@|    ensures final(self).request == old(self).request,
 //@|        r is Ok <==> cursor.rest().len() == 1 + 2 * old(self).request.inner.count as int,
-//@|        r is Err ==> final(self).promise.outcome() == old(self).promise.outcome() && !(r->Err_0 is Exception),
+//@|        r is Err ==> final(self).promise.outcome() == old(self).promise.outcome() && (r->Err_0 is BadResponse || r->Err_0 is BadRequest),
 //@|        r is Ok ==> final(self).promise.outcome() == (if old(self).promise.outcome() is None {
 //@|                Some(Ok::<RegsValue, RequestError>(RegsValue { range: old(self).request.inner,
 //@|                    values: Seq::new(old(self).request.inner.count as nat, |k: int| crate::be16(cursor.rest().subrange(1, cursor.rest().len() as int), 2 * k) as u16) }))
@@ -111,7 +111,7 @@
 //@|    ensures final(cursor).wf(),
 //@|        r is Ok <==> old(cursor).rest().len() == 1 + 2 * range.count as int,
 //@|        r is Ok ==> r->Ok_0.range == range && r->Ok_0.pos == 0 && r->Ok_0.bytes@ == old(cursor).rest().subrange(1, old(cursor).rest().len() as int) && (range.wf() ==> r->Ok_0.wf()),
-//@|        r is Err ==> !(r->Err_0 is Exception),
+//@|        r is Err ==> (r->Err_0 is BadResponse || r->Err_0 is BadRequest),
             }
         }
         pub mod write_single {
@@ -177,7 +177,7 @@
 //@|        forall|a: T, b: T| #[trigger] vstd::std_specs::cmp::PartialEqSpec::eq_spec(&a, &b) == (a == b),
 //@|    ensures final(self).request == old(self).request,
 //@|        r is Ok <==> (cursor.rest().len() == 4 && T::spec_parse(cursor.rest()) == Some(old(self).request)),
-//@|        r is Err ==> final(self).promise.outcome() == old(self).promise.outcome() && !(r->Err_0 is Exception),
+//@|        r is Err ==> final(self).promise.outcome() == old(self).promise.outcome() && (r->Err_0 is BadResponse || r->Err_0 is BadRequest),
 //@|        r is Ok ==> final(self).promise.outcome() == (if old(self).promise.outcome() is None { Some(Ok::<T, RequestError>(old(self).request)) } else { old(self).promise.outcome() }),
 //@fn rodbus/src/client/requests/write_single.rs | SingleWrite<T>::parse_all | tags=C04,C07 | r10 r10id=0
 //@|    requires cursor.wf(), <T as vstd::std_specs::cmp::PartialEqSpec>::obeys_eq_spec(),
@@ -185,6 +185,6 @@
 //@|    ensures
 //@|        r is Ok <==> (cursor.rest().len() == 4 && T::spec_parse(cursor.rest()) == Some(self.request)),
 //@|        r is Ok ==> r->Ok_0 == self.request,
-//@|        r is Err ==> !(r->Err_0 is Exception),
+//@|        r is Err ==> (r->Err_0 is BadResponse || r->Err_0 is BadRequest),
             }
         }
